@@ -35,7 +35,7 @@ def gen_cases(tier, seed):
     n = 600 if tier == "quick" else 6000
     cases = []
     for i in range(n):
-        cases.append({"kind": "history", "profile": ["mixed", "copy2", "churn", "refuse", "drill"][i % 5], "n_ops": [10, 16, 24][i % 3] if tier == "quick" else [15, 30, 50][i % 3], "gc": ["default", "every", "seeded"][(i // 5) % 3], "refs": ["strong", "refetch", "drop"][(i // 15) % 3]})
+        cases.append({"kind": "history", "profile": ["mixed", "copy2", "churn", "refuse", "drill"][i % 5], "n_ops": [10, 16, 24][i % 3] if tier == "quick" else [15, 30, 50][i % 3], "gc": ["default", "every", "seeded", "aggressive"][(i // 5) % 4], "refs": ["strong", "refetch", "drop"][(i // 15) % 3]})
     if tier == "thorough":  # the repository's own tests as an extra workload: every file they close goes through the validator
         cases.append({"kind": "repo-suite", "profile": "repo-suite"})
     return cases
